@@ -383,6 +383,10 @@ def shard_scale(env, spec, rec):
         lambda k: "[" + "1," * k + "]", lambda k: "{" + '"a":1,' * k + "}", lambda k: "..." * k, lambda k: "*" * k, lambda k: "\\" * k + '"',
         lambda k: '"' + "\\\\" * k + '"', lambda k: "a" + "|f:b" * k, lambda k: "[" + "*a," * k + "]", lambda k: '"{{ a }}' * k + '"', lambda k: "\n" * k + "a",
         lambda k: '"' + "{% x %}" * k + '"', lambda k: "k=" + "[" * k + "1" + "]" * k, lambda k: " " * k, lambda k: '"a" ' * k,
+        # unterminated strings full of escapes (the string scanners are regex-based: a regex that can match a backslash in
+        # two ways backtracks exponentially exactly when the closing quote is missing)
+        lambda k: '"' + "\\a" * k, lambda k: "'" + "\\'" * k, lambda k: 'k="' + '\\"' * k + " %} x", lambda k: '"%} ' + "\\\\" * k + "\\",
+        lambda k: "_('" + "\\n" * k, lambda k: '"{{ a }}' + "\\a" * k,
     ]
     for i in range(spec["n"]):
         if i < len(fams) * 2:
